@@ -102,8 +102,9 @@ def extract():
     tnew = _func(tim, "__new__", "TimeBase")
     time = dict(
         keyShape=teq is not None and "np.shape" in ast.unparse(teq),
+        # the key must tell apart the format of the receiver (argument of _to_scale) and its scale: __eq__ accepts its own scale class only
         keyTag=tsc is not None and "fmt" in [a.arg for a in tsc.args.args] and tpub is not None and "self._to_scale(scale, self.fmt)" in ast.unparse(tpub)
-        and _lru_maxsize(tpub) is None,
+        and _lru_maxsize(tpub) is None and teq is not None and "if isinstance(other, self.__class__):" in ast.unparse(teq),
         copyOut=False,
         frozenOut=tnew is not None and "obj.flags.writeable = False" in ast.unparse(tnew),
         freezeArg=False,
